@@ -17,14 +17,18 @@ INTERP_COMPONENTS = {
 ACTION_FAULTS = ["never", "dup", "early", "late", "no_started", "started_late", "stop_reacts"]
 
 
-def gen_interp_scenario(d, with_faults=True, n_flows=None, instant_end=False, max_deliveries=14, **kw):
-    prog = G.gen_program(d, n_flows=n_flows, instant_end=instant_end, **kw)
+def gen_interp_scenario(d, with_faults=True, n_flows=None, instant_end=False, max_deliveries=14, few_events=False, **kw):
+    events = None
+    if few_events:
+        k = d.randint(1, 2, "nev")
+        events = d.sample(list(G.EVENTS), k, "evsubset")
+    prog = G.gen_program(d, n_flows=n_flows, instant_end=instant_end, events=events, **kw)
     faults = []
     if with_faults and d.chance(0.6, "faulty"):
         faults = [f for f in ACTION_FAULTS if d.chance(0.5, "fk", f)]
     return {
         "program": prog,
-        "deliveries": G.gen_deliveries(d, d.randint(2, max_deliveries, "nd")),
+        "deliveries": G.gen_deliveries(d, d.randint(2, max_deliveries, "nd"), events=events),
         "client": {"seed": d.randint(0, 1 << 30, "cseed"), "faults": faults},
         "tie_seed": d.randint(0, 1 << 30, "tseed"),
         "gap_seed": d.randint(0, 1 << 30, "gseed"),
